@@ -421,58 +421,54 @@ def record_batch(seed, nfiles, focus, base_id=0):
             n = len(f['rules'])
             # classification is TOTAL: whatever a rule's expressions do for one transaction, match() / normalize_merchant return.
             # An exception of the implementation language escaping from them is reported as such (its file yields no records)
+            start = len(recs)
             try:
+                ref = [[None] * len(txns) for _ in range(n)]
                 for k in range(n):
-                    for t in txns:
-                        reference(f, k, t)
-                for path in ('engine', 'normalize'):
-                    observe_file(f, list(range(n)), txns, path, random.Random(1), tmpdir)
+                    for j, t in enumerate(txns):
+                        ref[k][j], _ = reference(f, k, t)
+                orders = [list(range(n))]
+                if n > 1:
+                    orders.append(list(reversed(range(n))))
+                    o = list(range(n))
+                    rnd.shuffle(o)
+                    orders.append(o)
+                # the file without the rules that match nothing at all in this statement
+                live = [k for k in range(n) if any(ref[k][j]['out'] == 'T' for j in range(len(txns)))]
+                if live and len(live) < n:
+                    orders.append(live)
+                stats['files'] += 1
+                for vi, order in enumerate(orders):
+                    path = 'engine' if (vi + fi) % 3 else 'normalize'
+                    text, obs = observe_file(f, order, txns, path, rnd, tmpdir)
+                    for j, t in enumerate(txns):
+                        rules = []
+                        for k in order:
+                            r = f['rules'][k]
+                            rules.append({'cat': r['cat'], 'sub': r['sub'] if r['cat'] else '', 'mer': r['mer'], 'spec': r['spec'],
+                                          'out': ref[k][j]['out'], 'rtags': ref[k][j]['rtags'], 'xf': ref[k][j]['xf'], 'rid': k + 1,
+                                          'tagsub': bool(r['sub'] and not r['cat'])})
+                        o = obs[j]
+                        rid = '%s:%d:%d:%d:%d' % (focus, seed, fi, vi, j)
+                        recs.append({'kind': 'match', 'id': rid, 'mode': mode, 'path': path, 'hasidx': path == 'engine',
+                                     'rules': rules, 'obs': {k: o[k] for k in ('matched', 'cat', 'sub', 'mer', 'tags', 'xf', 'matching', 'win', 'subwin')},
+                                     '_text': text, '_txn': dict(t, date=str(t['date'])), '_order': order})
+                        m = [x for x in rules if x['out'] == 'T']
+                        cm = [x for x in m if x['cat']]
+                        stats['records'] += 1
+                        stats['multi_match'] += len(cm) >= 2
+                        stats['tagonly_match'] += any(not x['cat'] for x in m)
+                        stats['ties'] += len(cm) >= 2 and len({tuple(x['spec']) for x in cm}) < len(cm)
+                        if o.get('unkname') is not None:
+                            names.append((o['unkname'], t['description'], bool(f['xform'])))
+                        elif path == 'engine' and not o['matched']:
+                            pass
+                stats['failing_rule'] += sum(1 for r in f['rules'] if any(w in r['match'] for w in
+                                                                         ('nosuchvar', 'len(5)', 'regex("(")', 'next(r', '1 / 0', 'min(5)',
+                                                                          '"x"', 'nokey', 'contains(5)', 'description - 1', 'txn.nope')))
             except (IndexError, TypeError, KeyError, AttributeError, ZeroDivisionError, ValueError, AssertionError) as ex:
+                del recs[start:]
                 names.append(('!raised', '%s: %s' % (type(ex).__name__, ex), render(f, list(range(n)), None)))
-                continue
-            ref = [[None] * len(txns) for _ in range(n)]
-            for k in range(n):
-                for j, t in enumerate(txns):
-                    ref[k][j], _ = reference(f, k, t)
-            orders = [list(range(n))]
-            if n > 1:
-                orders.append(list(reversed(range(n))))
-                o = list(range(n))
-                rnd.shuffle(o)
-                orders.append(o)
-            # the file without the rules that match nothing at all in this statement
-            live = [k for k in range(n) if any(ref[k][j]['out'] == 'T' for j in range(len(txns)))]
-            if live and len(live) < n:
-                orders.append(live)
-            stats['files'] += 1
-            for vi, order in enumerate(orders):
-                path = 'engine' if (vi + fi) % 3 else 'normalize'
-                text, obs = observe_file(f, order, txns, path, rnd, tmpdir)
-                for j, t in enumerate(txns):
-                    rules = []
-                    for k in order:
-                        r = f['rules'][k]
-                        rules.append({'cat': r['cat'], 'sub': r['sub'] if r['cat'] else '', 'mer': r['mer'], 'spec': r['spec'],
-                                      'out': ref[k][j]['out'], 'rtags': ref[k][j]['rtags'], 'xf': ref[k][j]['xf'], 'rid': k + 1,
-                                      'tagsub': bool(r['sub'] and not r['cat'])})
-                    o = obs[j]
-                    rid = '%s:%d:%d:%d:%d' % (focus, seed, fi, vi, j)
-                    recs.append({'kind': 'match', 'id': rid, 'mode': mode, 'path': path, 'hasidx': path == 'engine',
-                                 'rules': rules, 'obs': {k: o[k] for k in ('matched', 'cat', 'sub', 'mer', 'tags', 'xf', 'matching', 'win', 'subwin')},
-                                 '_text': text, '_txn': dict(t, date=str(t['date'])), '_order': order})
-                    m = [x for x in rules if x['out'] == 'T']
-                    cm = [x for x in m if x['cat']]
-                    stats['records'] += 1
-                    stats['multi_match'] += len(cm) >= 2
-                    stats['tagonly_match'] += any(not x['cat'] for x in m)
-                    stats['ties'] += len(cm) >= 2 and len({tuple(x['spec']) for x in cm}) < len(cm)
-                    if o.get('unkname') is not None:
-                        names.append((o['unkname'], t['description'], bool(f['xform'])))
-                    elif path == 'engine' and not o['matched']:
-                        pass
-            stats['failing_rule'] += sum(1 for r in f['rules'] if any(w in r['match'] for w in
-                                                                     ('nosuchvar', 'len(5)', 'regex("(")', 'next(r', '1 / 0', 'min(5)',
-                                                                      '"x"', 'nokey', 'contains(5)', 'description - 1', 'txn.nope')))
     finally:
         import shutil
         shutil.rmtree(tmpdir, ignore_errors=True)
